@@ -927,3 +927,15 @@ func fnAndHelpers(fn *ssa.Function, depth int) []*ssa.Function {
 	walk(fn, depth)
 	return out
 }
+
+
+// edgeDominates: every path from the function's entry to target takes the edge (from, successor succ).
+// Unlike from.Succs[succ].Dominates(target) this stays exact when the successor block has other
+// predecessors (a join after a conditional guard, the exit block of a loop the guard sits in).
+func edgeDominates(from *ssa.BasicBlock, succ int, target *ssa.BasicBlock) bool {
+	fn := from.Parent()
+	if fn == nil || len(fn.Blocks) == 0 || succ < 0 || succ >= len(from.Succs) {
+		return false
+	}
+	return !reachWithoutEdge(fn.Blocks[0], target, func(b *ssa.BasicBlock, s int) bool { return b == from && s == succ })
+}
